@@ -72,6 +72,7 @@ theorem NF_withBoost : ∀ (q : Q) (b : Rat), NF q = true → NF (q.withBoost b)
   | .not _ _, _, _ => rfl
   | .bin k _ _, _, _ => by cases k <;> rfl
   | .const _ _, _, _ => rfl
+  | .opq _ _, _, _ => rfl
 
 theorem NF_rngNormalize (r : Rng) : NF r.normalize = true := by
   unfold Rng.normalize
